@@ -231,6 +231,7 @@ func (c *Cache) ReadFile(src string) ([]byte, error) {
 
 // WriteFile write file data
 func (c *Cache) WriteFile(dest string, data []byte, perm os.FileMode) error {
+	dest = varutil.CleanPath(dest)
 	c.changeWrite(dest, true)
 	return c.bufferFS.WriteFile(dest, data, perm)
 }
